@@ -57,6 +57,8 @@ def check_c09(ctx):
 
     def add(**kw):
         kw["id"] = len(scn) + 1
+        # every third model is written over the artefact of an earlier, larger model (Prior in Codec.tla)
+        kw["over"] = kw["id"] % 3 == 0 and kw.get("kind") != "foreign"
         scn.append(kw)
 
     # (a) every enumerated string at every attribute position of a model with collectors, mixins, views, events
@@ -111,6 +113,7 @@ def check_c09(ctx):
            "models_round_tripped": len(compiled), "by_kind": nk, "attribute_strings": len(strs),
            "encodings_per_model": 5, "decodes": sum(1 for e in events if e["e"] == "decode"),
            "reimports": sum(1 for e in events if e["e"] == "reimport"),
+           "artefacts_written_over_an_earlier_one": sum(1 for e in events if e["e"] == "prior"),
            "samples": [strs[:12]]}
     return core.finish(ctx, "model_checking", cov, [
         "model equality is equality of the deterministic binary encoding (all fields; without locations: every SourceContext cleared)",
@@ -119,4 +122,5 @@ def check_c09(ctx):
         "attribute strings: every string over {quote, backslash, newline, tab, colon, space, non-ASCII letter, brace, letter} up to length 2 (quick) / 3 "
         "(thorough) plus key-like shapes, written at every attribute position of a template with collectors, mixins, views, events and REST endpoints, "
         "and as the attribute values of TLC-generated programs; a source the compiler rejects contributes nothing",
+        "every third model is written to files that already hold the artefact of an earlier, larger model (the model plus one application): Prior in Codec.tla",
     ])
